@@ -184,9 +184,12 @@ def main(argv):
         failed = [o for o in failed if o["rule"] == want["rule"]
                   and o["instance"] == want["instance"]]
     new = []
+    known_hits = []
     for o in failed:
         k = is_known(pid, o, known)
         if k:
+            known_hits.append({"rule": o["rule"], "instance": o["instance"], "where": o["where"],
+                               "finding": k["what"][:400]})
             print("KNOWN-FINDING: property=%s %s [%s %s]" % (pid, k["what"], o["rule"],
                                                              o["instance"]))
         else:
@@ -207,8 +210,10 @@ def main(argv):
         print("VIOLATION property=%s replay=%s" % (pid, rp))
         rc = 1
     wall = time.time() - t0
-    write_evidence(pid, tier, level, cx, wall, len(new), db_info, mod,
-                   getattr(mod, "evidence_extra", lambda cx: None)(cx))
+    extra = getattr(mod, "evidence_extra", lambda cx: None)(cx) or {}
+    if known_hits:
+        extra = dict(extra, known_findings=known_hits)
+    write_evidence(pid, tier, level, cx, wall, len(new), db_info, mod, extra)
     nob = len(cx.obs)
     print("%s [%s] %d obligations, %d hold, %d known findings, %d violations; "
           "%s; %.1fs" % (pid, tier, nob, nob - len(failed), len(failed) - len(new), len(new),
